@@ -73,6 +73,8 @@ impl C13 {
             ("failed-write-leaves-unchanged", if ctx.flavour == Flavour::Miri { 30 } else { (FW_SEQS.len() * FW_WRITES.len()) as u64 }),
             ("directed", directed().len() as u64),
             ("random-op-sequences", rnd),
+            // long strings measured, indexed, changed in place and replaced, judged by what the run prints (props/strlife.rs)
+            ("string-lifecycle", match (ctx.flavour, ctx.tier) { (Flavour::Miri, _) => 40, (Flavour::Rel, Tier::Quick) => 4_000, (Flavour::Rel, Tier::Thorough) => 300_000, (_, Tier::Quick) => 300, _ => 5_000 }),
         ])
     }
 
@@ -431,6 +433,10 @@ impl Check for C13 {
         300
     }
     fn describe_case(&mut self, ctx: &Ctx, idx: u64) -> String {
+        let (_, name, i) = self.fams(ctx).locate(idx);
+        if name == "string-lifecycle" {
+            return super::strlife::generate(&mut Rng::for_case(ctx.seed, 13_900, i), super::strlife::Focus::Measure).text;
+        }
         to_text(&self.program(ctx, idx, None).1)
     }
     fn run_case(&mut self, ctx: &Ctx, idx: u64, st: &mut Stats) {
@@ -442,6 +448,11 @@ impl Check for C13 {
             }
             if name == "failed-write-leaves-unchanged" {
                 self.failed_write(ctx, i, st);
+                return;
+            }
+            if name == "string-lifecycle" {
+                let mut r = Rng::for_case(ctx.seed, 13_900, i);
+                super::strlife::run_case(&mut r, super::strlife::Focus::Measure, name, ctx.flavour == Flavour::Miri, st);
                 return;
             }
         }
